@@ -7,6 +7,7 @@ import (
 	"fmt"
 	"os"
 	"path/filepath"
+	"runtime/debug"
 	"sort"
 	"strings"
 	"testing"
@@ -270,6 +271,7 @@ func effectiveJSX(tsconfig string, present bool) jsxRuntime {
 // tracker follows the ops of a case: which regular files exist and at which step their bytes last changed.
 type tracker struct {
 	lastChange map[string]int
+	links      map[string]string // symbolic links: path → target text
 	ts         string
 	tsPresent  bool
 }
@@ -279,6 +281,11 @@ func (t *tracker) apply(step int, ops []fsgen.Op) {
 		switch o.Op {
 		case "write", "replace", "symlink":
 			t.lastChange[o.Path] = step
+			if o.Op == "symlink" {
+				t.links[o.Path] = o.Content
+			} else {
+				delete(t.links, o.Path)
+			}
 			if o.Path == tsPath {
 				t.ts, t.tsPresent = o.Content, true
 			}
@@ -286,6 +293,7 @@ func (t *tracker) apply(step int, ops []fsgen.Op) {
 			for p := range t.lastChange {
 				if p == o.Path || strings.HasPrefix(p, o.Path+"/") {
 					delete(t.lastChange, p)
+					delete(t.links, p)
 				}
 			}
 			if o.Path == tsPath {
@@ -294,6 +302,10 @@ func (t *tracker) apply(step int, ops []fsgen.Op) {
 		case "rename":
 			delete(t.lastChange, o.Path)
 			t.lastChange[o.To] = step
+			if l, ok := t.links[o.Path]; ok {
+				delete(t.links, o.Path)
+				t.links[o.To] = l
+			}
 		}
 	}
 }
@@ -559,6 +571,63 @@ func matchesKnownMetaDup(fresh, rebuilt canonResult, d resultDiff) bool {
 	return removed > 0
 }
 
+// Finding C09-watch-symlink-unwatched. The real file system resolves a directory entry that is a symbolic link with
+// lstat + evalSymlinks (fs_real.go kind()) without recording anything for the watcher. A build that reached a module through
+// a link therefore watches the link's *name* (directory entry) and the *target file it read*, but not what the link points
+// to: re-pointing the link, or removing/creating a link target that the build only stat'ed, changes the result of a fresh
+// build while every watch predicate stays clean.
+//
+// Signature (a predicate over the case): before the step the tree contains symbolic links, and every operation of the step
+// either re-points one of them (a "symlink" operation on an existing link) or creates/removes/renames exactly the path that
+// one of them (transitively) points to.
+const knownSymlinkWatch = "C09-watch-symlink-unwatched"
+
+func linkTargets(links map[string]string) map[string]bool {
+	out := map[string]bool{}
+	for p, t := range links {
+		cur, target := p, t
+		for depth := 0; depth < 5; depth++ {
+			res := target
+			if !strings.HasPrefix(target, "/") {
+				res = filepath.ToSlash(filepath.Join(filepath.Dir(cur), target))
+			}
+			out[res] = true
+			next, ok := links[res]
+			if !ok {
+				break
+			}
+			cur, target = res, next
+		}
+	}
+	return out
+}
+
+func matchesKnownSymlinkWatch(linksBefore map[string]string, ops []fsgen.Op) bool {
+	if len(linksBefore) == 0 || len(ops) == 0 {
+		return false
+	}
+	targets := linkTargets(linksBefore)
+	for _, o := range ops {
+		switch o.Op {
+		case "symlink":
+			if _, ok := linksBefore[o.Path]; !ok {
+				return false
+			}
+		case "write", "replace", "remove":
+			if !targets[o.Path] {
+				return false
+			}
+		case "rename":
+			if !targets[o.Path] && !targets[o.To] {
+				return false
+			}
+		default:
+			return false
+		}
+	}
+	return true
+}
+
 // ------------------------------------------------------------------------------------ judge
 
 // hangLimit guards against a rebuild that never returns (for example a cycle in symbol links after the linker mutated a
@@ -567,26 +636,43 @@ func matchesKnownMetaDup(fresh, rebuilt canonResult, d resultDiff) bool {
 const hangLimit = 120 * time.Second
 const hangPrefix = "HANG: "
 
-func rebuild(ctx api.BuildContext, watch bool) (api.BuildResult, func() []string, bool) {
+func rebuild(ctx api.BuildContext, watch bool) (api.BuildResult, func() []string, string) {
 	type out struct {
-		r api.BuildResult
-		f func() []string
+		r        api.BuildResult
+		f        func() []string
+		panicked string
 	}
 	ch := make(chan out, 1)
 	go func() {
+		// a panic inside the rebuild must fail the case (in the caller's goroutine), not kill the shard
+		defer func() {
+			if p := recover(); p != nil {
+				ch <- out{panicked: fmt.Sprintf("%v\n%s", p, debug.Stack())}
+			}
+		}()
 		if watch {
 			r, f := api.VerifRebuildWithWatchData(ctx)
-			ch <- out{r, f}
+			ch <- out{r: r, f: f}
 		} else {
-			ch <- out{ctx.Rebuild(), nil}
+			ch <- out{r: ctx.Rebuild()}
 		}
 	}()
 	select {
 	case o := <-ch:
-		return o.r, o.f, true
+		if o.panicked != "" {
+			return api.BuildResult{}, nil, "panicked: " + o.panicked
+		}
+		return o.r, o.f, ""
 	case <-time.After(hangLimit):
-		return api.BuildResult{}, nil, false
+		return api.BuildResult{}, nil, "hang"
 	}
+}
+
+func clipText(s string, n int) string {
+	if len(s) > n {
+		return s[:n] + "…"
+	}
+	return s
 }
 
 type nopTB struct{}
@@ -643,7 +729,7 @@ func judge(c Case) vdrv.Verdict {
 	}
 	defer func() { ctx.Dispose() }()
 
-	tr := &tracker{lastChange: map[string]int{}}
+	tr := &tracker{lastChange: map[string]int{}, links: map[string]string{}}
 	tr.apply(0, c.Init)
 	prevJSX := effectiveJSX(tr.ts, tr.tsPresent)
 	lastJSXChange := 0
@@ -652,6 +738,7 @@ func judge(c Case) vdrv.Verdict {
 	var prevFresh canonResult
 	var dirtyFn func() []string
 	knownHits := map[string]int{}
+	linksBefore := map[string]string{}
 	sticky := map[string]bool{} // bare entry points that were regular files at an earlier build of the current context
 	var firstKnown *vdrv.Verdict
 	configEdit, resolutionChange := false, false
@@ -664,6 +751,10 @@ func judge(c Case) vdrv.Verdict {
 			kind = a.Kind
 			if err := fsgen.ApplyAll(root, a.Ops); err != nil {
 				return vdrv.Skip("infra-apply-action")
+			}
+			linksBefore = map[string]string{}
+			for p, t := range tr.links {
+				linksBefore[p] = t
 			}
 			tr.apply(k, a.Ops)
 			if cur := effectiveJSX(tr.ts, tr.tsPresent); cur != prevJSX {
@@ -691,8 +782,12 @@ func judge(c Case) vdrv.Verdict {
 			}
 		}
 		fresh := canon(root, api.Build(opts))
-		res, fn, returned := rebuild(ctx, c.Watch)
-		if !returned {
+		res, fn, trouble := rebuild(ctx, c.Watch)
+		if strings.HasPrefix(trouble, "panicked") {
+			ctx = nopContext{} // the context still believes a build is active; Dispose() would wait for it
+			return vdrv.Fail(fmt.Sprintf("after step %d (%s) Rebuild() %s\n%s", k, kind, clipText(trouble, 1500), describe(c, k)), fresh.text(), trouble)
+		}
+		if trouble == "hang" {
 			ctx = nopContext{} // Dispose() of the stuck context would wait for the build
 			return vdrv.Fail(fmt.Sprintf(hangPrefix+"after step %d (%s) Rebuild() did not return within %v; a fresh build of the same tree returned normally\n%s", k, kind, hangLimit, describe(c, k)), fresh.text(), "no result")
 		}
@@ -733,8 +828,12 @@ func judge(c Case) vdrv.Verdict {
 			if cerr != nil {
 				return vdrv.Skip("context-refused-after-known")
 			}
-			res, fn, returned = rebuild(ctx, c.Watch)
-			if !returned {
+			res, fn, trouble = rebuild(ctx, c.Watch)
+			if strings.HasPrefix(trouble, "panicked") {
+				ctx = nopContext{}
+				return vdrv.Fail(fmt.Sprintf("after step %d (%s) Rebuild() on a new context %s\n%s", k, kind, clipText(trouble, 1500), describe(c, k)), fresh.text(), trouble)
+			}
+			if trouble == "hang" {
 				ctx = nopContext{}
 				return vdrv.Fail(fmt.Sprintf(hangPrefix+"after step %d (%s) Rebuild() on a new context did not return within %v\n%s", k, kind, hangLimit, describe(c, k)), fresh.text(), "no result")
 			}
@@ -757,7 +856,13 @@ func judge(c Case) vdrv.Verdict {
 				if resolutionKinds[kind] {
 					resolutionChange = true
 				}
-				if c.Watch && len(dirty) == 0 {
+				if c.Watch && len(dirty) == 0 && matchesKnownSymlinkWatch(linksBefore, c.Actions[k-1].Ops) {
+					knownHits[knownSymlinkWatch]++
+					if firstKnown == nil {
+						v := vdrv.Fail("", "at least one dirty path", "no dirty path")
+						firstKnown = &v
+					}
+				} else if c.Watch && len(dirty) == 0 {
 					return vdrv.Fail(fmt.Sprintf("watch: step %d (%s) changes the result of a fresh build, but no watch predicate captured by the previous build reports a change\n%s", k, kind, describe(c, k)),
 						"at least one dirty path", "no dirty path; result before:\n"+prevFresh.text()+"\n--- result after:\n"+fresh.text())
 				}
@@ -821,7 +926,7 @@ func judge(c Case) vdrv.Verdict {
 	sort.Strings(cls)
 	nontrivial := len(c.Actions) >= 3 && (configEdit || resolutionChange)
 
-	for _, id := range []string{knownJSX, knownMetaDup, knownEntry} {
+	for _, id := range []string{knownJSX, knownMetaDup, knownEntry, knownSymlinkWatch} {
 		if n := knownHits[id]; n > 0 {
 			v := vdrv.Fail(fmt.Sprintf("known finding %s at %d step(s); nothing else diverged in this history\n%s", id, n, describe(c, len(c.Actions))), firstKnown.Expected, firstKnown.Observed)
 			v.Known = id
@@ -921,7 +1026,7 @@ func runHist(t *testing.T) {
 		"(through hook H1 in 80% of histories) must equal a fresh api.Build (output paths+bytes, metafile, errors/warnings with locations and notes); the watch predicates "+
 		"captured by the previous rebuild must report a change whenever the fresh result changed. Non-trivial = ≥3 actions including a config-file edit or a create/delete/rename/shadow "+
 		"that changed the fresh result.")
-	H.SetupRapid("hist", H.N(2400, 60000))
+	H.SetupRapid("hist", H.N(1600, 80000))
 	flag.Set("rapid.steps", "6")
 	rapid.Check(t, func(rt *rapid.T) {
 		c := genCase(rt)
